@@ -19,6 +19,9 @@ SPELLINGS = [
     ("tree/", {"is-directory": "true"}, "tree"),
     ("tree/", {"is-directory-structure": "true"}, "structure"),
     ("tree/", {"type": "directory-structure"}, "structure"),
+    # the same with the node named by its absolute path
+    ("ABS:tree/", None, "tree"),
+    ("ABS:tree/", {"type": "directory-structure"}, "structure"),
 ]
 PATTERN_SETS = [None, None, ["*.tmp"], ["skip*", "*.o"], ["x?z"], ["*.tmp", "skip*", "x?z"], ["*.o", "*.tmp"]]
 
@@ -59,6 +62,13 @@ class Tree:
                         self.sb.write("tree/" + rel, "content of %s\n" % rel)
                         self.files.add(rel)
             frontier = nxt or frontier
+        # sibling directories one of whose names is a character prefix of the other's (pre, pre-gen): a link from the longer-named one to
+        # the shorter-named one does not point to a parent
+        if rnd.random() < 0.5:
+            for dname in ("pre", "pre-gen"):
+                os.makedirs(self.sb.p("tree/" + dname)); self.dirs.add(dname)
+                self.sb.write("tree/%s/m.c" % dname, "member of %s\n" % dname); self.files.add(dname + "/m.c")
+            self.prefix_siblings = True
         # a symlink to a file outside the tree, and one to the tree root (a loop)
         self.sb.write("outside.txt", "outside\n")
         if rnd.random() < 0.5:
@@ -83,7 +93,7 @@ class Tree:
 
 
 EDITS = ["noop", "add_file", "add_dir", "remove_file", "remove_dir", "rename_file", "retype_file_to_dir", "retype_dir_to_file", "content_size", "content_same_size",
-         "mtime_only", "replace_by_rename", "add_excluded", "content_excluded", "retarget_link", "add_file_deep", "add_keep_dir_mtime"]
+         "mtime_only", "replace_by_rename", "add_excluded", "content_excluded", "retarget_link", "add_file_deep", "add_keep_dir_mtime", "link_to_prefix_sibling"]
 
 
 def apply_edit(t, kind, patterns):
@@ -119,6 +129,21 @@ def apply_edit(t, kind, patterns):
         st2 = os.stat(dpath)
         if (st2.st_mtime_ns, st2.st_size, st2.st_ino) != (st.st_mtime_ns, st.st_size, st.st_ino):
             return (rel, "structural")   # the file system changed the record anyway; still a structural change
+        return (rel, "structural")
+    if kind == "link_to_prefix_sibling" and getattr(t, "prefix_siblings", False):
+        # pre-gen/lnk -> ../pre appears or disappears (keeping the directory's own mtime half of the time)
+        rel = "pre-gen/lnk"
+        if excluded(rel, patterns) or excluded("pre-gen", patterns) or not os.path.isdir(sb.p("tree/pre-gen")) or not os.path.isdir(sb.p("tree/pre")):
+            return None
+        dpath = sb.p("tree/pre-gen"); st = os.stat(dpath)
+        if os.path.lexists(sb.p("tree/" + rel)):
+            os.unlink(sb.p("tree/" + rel)); t.links.discard(rel)
+        else:
+            os.symlink("../pre", sb.p("tree/" + rel)); t.links.add(rel)
+        if rnd.random() < 0.5:
+            os.utime(dpath, ns=(st.st_atime_ns, st.st_mtime_ns))
+        else:
+            t.retouch_dirs(rel)
         return (rel, "structural")
     if kind == "add_dir":
         d = rnd.choice(all_dirs); name = t.newname().replace(".", "_")
@@ -216,6 +241,8 @@ def case(args):
     res = dict(viol=[], builds=0, judged=0, must=0, mustnot=0, dontcare=0, classes=set(), sample=None, inconclusive=[], edits={})
     try:
         node, attrs, knode = SPELLINGS[index % len(SPELLINGS)]
+        if node.startswith("ABS:"):
+            node = sb.p(node[4:-1]) + "/"
         patterns = PATTERN_SETS[(index // len(SPELLINGS)) % len(PATTERN_SETS)]
         t = Tree(sb, rnd)
         os.makedirs(sb.p("tree"))
